@@ -98,9 +98,33 @@ def filter_structure(sl):
     observe("elements keep their order", el_of == sorted(el_of))
     observe("surviving elements are the original objects", all(any(e is o for o in schedule) for e in ch.schedule))
     check_allocator(list(ch.schedule), obs=lambda label, cond: observe("filtered schedule is runnable: " + label, cond))
+    _driver_starts(list(ch.schedule))
     twin_matched = any(bool(matrix[(id(twin), f)]) for f in range(nf))
     observe("every challenge is filtered on its own tasks (a task of another challenge with the same name does not decide)",
             [t for t in ch2.schedule] == ([twin] if twin_matched == include else []))
+
+
+def _driver_starts(schedule):
+    """the driver can execute and report every remaining step: the real Driver.start_benchmark on the filtered schedule starts workers that
+    cover every client (also for a schedule without any task: somebody has to report the join point that ends the race)"""
+    from harness import actors
+
+    try:
+        s = actors.build_driver(schedule, cores=2)
+        s.fire(s.enabled()[0])  # StartBenchmark -> Driver.start_benchmark
+    except Exception as e:  # noqa: BLE001
+        core.note("start_benchmark raised", repr(e))
+        observe("filtered schedule is runnable: the driver starts it", False)
+        return
+    D = s.D
+    failures = [m for q in s.chan.values() for _, m in q if type(m).__name__ == "BenchmarkFailure"]
+    observe("filtered schedule is runnable: the driver starts it", not failures)
+    observe("filtered schedule is runnable: one step per remaining element", D.number_of_steps == len(schedule) and len(D.tasks_per_join_point) == len(schedule))
+    widest = max([1] + [e.clients for e in schedule])
+    observe("filtered schedule is runnable: at least one worker is started and every client has a worker",
+            len(D.workers) >= 1 and sorted(D.clients_per_worker) == list(range(widest)))
+    starts = [m for q in s.chan.values() for _, m in q if type(m).__name__ == "StartWorker"]
+    observe("filtered schedule is runnable: every started worker is told what to run", len(starts) == len(D.workers))
 
 
 TAGS = [None, "a", "ab", ["a", "b"], ["ab"], []]
